@@ -1,6 +1,7 @@
 import Cqos.DriverPure
 import Cqos.DriverSched
 import Cqos.DriverJoin
+import Cqos.DriverLimit
 /-
   `cqosmodel`: reads one request per line on stdin, prints one reply line per request.
   Unknown or malformed requests are answered `bad-op` (never defaulted).  A `cfg` line
@@ -14,16 +15,21 @@ def splitLine (line : String) : List String :=
 structure Sessions where
   sched : Option DriverSched.Session := none
   join : Option DriverJoin.Session := none
+  limit : Option DriverLimit.Session := none
 
 def handle (ss : Sessions) (toks : List String) : String × Sessions :=
   match toks with
   | "cfg" :: _ =>
     match DriverSched.startSession toks with
-    | some (r, s) => (r, { ss with sched := s, join := none })
+    | some (r, s) => (r, { ss with sched := s, join := none, limit := none })
     | none => ("bad-op", { ss with sched := none })
+  | "lcfg" :: _ =>
+    match DriverLimit.start toks with
+    | some (r, s) => (r, { ss with limit := s, sched := none, join := none })
+    | none => ("bad-op", { ss with limit := none })
   | "jcfg" :: _ =>
     match DriverJoin.start toks with
-    | some (r, s) => (r, { ss with join := s, sched := none })
+    | some (r, s) => (r, { ss with join := s, sched := none, limit := none })
     | none => ("bad-op", { ss with join := none })
   | _ =>
     match DriverPure.op toks with
@@ -40,7 +46,13 @@ def handle (ss : Sessions) (toks : List String) : String × Sessions :=
           (match DriverJoin.op j toks with
            | some (r, j') => (r, { ss with join := some j' })
            | none => ("bad-op", ss))
-        | none => ("bad-op", ss)
+        | none =>
+          match ss.limit with
+          | some l =>
+            (match DriverLimit.op l toks with
+             | some (r, l') => (r, { ss with limit := some l' })
+             | none => ("bad-op", ss))
+          | none => ("bad-op", ss)
 
 partial def loop (h : IO.FS.Stream) (out : IO.FS.Stream) (ss : Sessions) : IO Unit := do
   let line ← h.getLine
